@@ -235,4 +235,6 @@ def random_base_spec(seed):
     spec = est_gen.random_object_spec(rng, cls, n=rng.randint(10, 64))
     spec['params']['min_freq'] = rng.choice(THRESHOLDS)
     spec.pop('float_dtype', None)
+    spec['params'].pop('str_nan', None)         # this driver projects with the default sentinels
+    spec['params'].pop('str_default', None)
     return spec
